@@ -394,8 +394,29 @@ def _behaviour(c, sim, a, b):
     # the thread schedule is not C01's subject (IntervalRegressor consumes the
     # global RNG in task order): both fits run their tasks sequentially
     c.force_sequential = True
-    for inst in (a, b):
-        ok, m = U.sut(c, "clone", clone, inst)
+    # clones of both instances, and the first instance itself: an object that
+    # was reconfigured through set_params must behave like a fresh clone of it
+    import copy
+
+    plan = [(a, True), (b, True)]
+    # a deep copy keeps whatever the instance derived from its parameters
+    # (and does not leave fitted state on the live instance); instances that
+    # already carry fitted state -- theirs or a nested estimator's -- are
+    # left out: a warm start would legitimately differ from a clone
+    pristine = not _fitted_attrs(a) or set(_fitted_attrs(a)) <= {"method_"}
+    for o in _nested_objects(a).values():
+        if _fitted_attrs(o):
+            pristine = False
+    if pristine:
+        plan.append((a, False))
+    for inst, use_clone in plan:
+        if use_clone:
+            ok, m = U.sut(c, "clone", clone, inst)
+        else:
+            try:
+                ok, m = True, copy.deepcopy(inst)
+            except Exception:  # noqa: BLE001
+                continue
         if not ok:
             c.force_sequential = False
             return
@@ -424,6 +445,14 @@ def _behaviour(c, sim, a, b):
     c.log.ev("result", "behaviour", [(k, v[:2] if isinstance(v, tuple) else C.ahash(v)) for k, v in sorted(outs[0].items())])
     if bad:
         sim.viol("transplant-behaviour", (bad[0],), "after transplanting parameters the two instances report equal parameters but behave differently (%r)" % bad)
+    elif len(outs) > 2:
+        bad = R.same_outputs(spec, outs[0], outs[2], exact=True)
+        if bad:
+            sim.viol(
+                "instance-vs-clone-behaviour",
+                (bad[0],),
+                "an instance reconfigured through set_params behaves differently from a clone of itself (%r): something derived from the parameters was not updated" % bad,
+            )
 
 
 def run(c, index, tier):
